@@ -300,6 +300,57 @@ pub fn parse_codes(mut str: &str) -> Result<Vec<Element<'_>>> {
 
 const NUMBERS: &[u8] = b"0123456789abcdefghijklmnopqrstuvwxyz";
 
+/// Digits (least significant first) of the integer part of a non-negative double.
+/// Exact for every magnitude: a double above 2^63 does not fit any machine integer,
+/// so the value is expanded into base 2^32 limbs and divided by the radix limb by limb.
+fn integer_digits(iv: f64, radix: u32) -> Vec<u8> {
+	const LIMB_BITS: u32 = 32;
+	// iv = mant * 2^shift
+	let bits = iv.to_bits();
+	let biased = ((bits >> 52) & 0x7ff) as i32;
+	let fraction = bits & ((1 << 52) - 1);
+	let (mant, shift) = if biased == 0 {
+		(fraction, -1074)
+	} else {
+		(fraction | 1 << 52, biased - 1075)
+	};
+	// Little-endian limbs of floor(iv)
+	let mut limbs: Vec<u32> = if shift < 0 {
+		let whole = if shift <= -64 { 0 } else { mant >> -shift };
+		vec![whole as u32, (whole >> LIMB_BITS) as u32]
+	} else {
+		let shift = shift as u32;
+		let mut limbs = vec![0; (shift / LIMB_BITS) as usize];
+		let high = u128::from(mant) << (shift % LIMB_BITS);
+		limbs.extend([
+			high as u32,
+			(high >> LIMB_BITS) as u32,
+			(high >> (2 * LIMB_BITS)) as u32,
+		]);
+		limbs
+	};
+	let mut digits = Vec::with_capacity(1);
+	loop {
+		while limbs.last() == Some(&0) {
+			limbs.pop();
+		}
+		if limbs.is_empty() {
+			break;
+		}
+		let mut rem = 0u64;
+		for limb in limbs.iter_mut().rev() {
+			let cur = rem << LIMB_BITS | u64::from(*limb);
+			*limb = (cur / u64::from(radix)) as u32;
+			rem = cur % u64::from(radix);
+		}
+		digits.push(rem as u8);
+	}
+	if digits.is_empty() {
+		digits.push(0);
+	}
+	digits
+}
+
 #[inline]
 #[allow(clippy::fn_params_excessive_bools)]
 pub fn render_integer(
@@ -316,20 +367,9 @@ pub fn render_integer(
 	caps: bool,
 ) {
 	debug_assert!(iv >= 0.0, "render_integer receives sign using arg");
-	let iv = iv.floor() as i64;
 	// Digit char indexes in reverse order, i.e
 	// for radix = 16 and n = 12f: [15, 2, 1]
-	let digits = if iv == 0 {
-		vec![0u8]
-	} else {
-		let mut v = iv.abs();
-		let mut nums = Vec::with_capacity(1);
-		while v != 0 {
-			nums.push((v % radix) as u8);
-			v /= radix;
-		}
-		nums
-	};
+	let digits = integer_digits(iv, radix as u32);
 	#[allow(clippy::bool_to_int_with_if)]
 	let zp = padding.saturating_sub(if neg || blank || sign { 1 } else { 0 });
 
